@@ -98,6 +98,32 @@ inline void apply_byte_fault(const Op& op, const SchemaShape& sh, const Frame& f
     (void)f;
 }
 
+// Background content of a slot before a producer writes into it (what the medium held before).
+inline std::vector<u8> slot_background(const FrameSpec& fs, std::size_t size, int kind, u64 seed)
+{
+    std::vector<u8> bg(size, 0);
+    switch(kind)
+    {
+    case 0: break;
+    case 1: std::fill(bg.begin(), bg.end(), (u8)0xFF); break;
+    case 2:
+    {
+        FrameSpec o = fs;
+        o.tree_seed = seed;
+        Frame other = make_frame(o);
+        for(std::size_t i = 0; i < size; i++) bg[i] = i < other.bytes.size() ? other.bytes[i] : (u8)(i * 7 + 3);
+        break;
+    }
+    default:
+    {
+        sim::Rng r(seed * 77 + 5);
+        for(auto& b : bg) b = (u8)r.below(256);
+        break;
+    }
+    }
+    return bg;
+}
+
 // The CPU budget is set once per plan (PlanBudget), not per call.
 inline Outcome call_driver(const Driver& d, Req& rq, Res& rs)
 {
